@@ -83,6 +83,9 @@ func newC16World(r *core.RNG) *c16World {
 				w.keks[d.ASLabel] = r.Bytes([]int{16, 24, 32}[r.Intn(3)])
 			}
 		}
+		for w.devs[d.DevEUI] != nil { // identities are unique within a world (boundary EUIs repeat)
+			r.Fill(d.DevEUI[:])
+		}
 		w.devs[d.DevEUI] = d
 		w.list = append(w.list, d)
 	}
@@ -139,6 +142,9 @@ func c16MakeRequest(r *core.RNG, w *c16World, forceValid bool) c16Req {
 	dev := *d
 	if !forceValid && r.Chance(1, 8) {
 		dev.DevEUI = eui(r) // unknown device
+		for w.devs[dev.DevEUI] != nil {
+			r.Fill(dev.DevEUI[:])
+		}
 		q.known = false
 	}
 	q.dev = &dev
@@ -147,6 +153,12 @@ func c16MakeRequest(r *core.RNG, w *c16World, forceValid bool) c16Req {
 	q.txID = r.U32()
 	q.nonce = uint16(r.U32Edge())
 	r.Fill(q.devAddr[:])
+	switch r.Intn(10) {
+	case 0:
+		q.devAddr = [4]byte{} // 00000000 is an address like any other
+	case 1:
+		q.devAddr = [4]byte{0xff, 0xff, 0xff, 0xff}
+	}
 	q.dls = byte(r.Intn(128))
 	q.rxDelay = r.Intn(16)
 	if r.Bool() {
